@@ -272,6 +272,16 @@ def draw_cfg(rng: random.Random, methods=None, pipes=None, target=None, months=N
             "simulation": sim, "design": design, "loads": loads, "target": target}
 
 
+def amp_for(cfg: dict, n_t: float, h: float) -> float:
+    """load amplitude that a field of about n_t boreholes of height h carries (same crude figure as draw_cfg)"""
+    soil, sim = cfg["soil"], cfg["simulation"]
+    ugt = soil["undisturbed_temp"]
+    wpm = 35.0 * soil["conductivity"] / 2.5 * min(sim["max_eft"] - ugt, ugt - sim["min_eft"]) / 10.0
+    if cfg["loads"]["family"] == "constant":
+        wpm *= 0.35
+    return r3(wpm * n_t * h)
+
+
 # ------------------------------------------------------------------------------------ construction
 SETTERS = ["pipe", "soil", "grout", "fluid", "borehole", "simulation", "loads", "geometry"]
 
